@@ -1,6 +1,6 @@
 (* C17 - lemmas about the GATT link model (Model/PduLink.v) *)
 From Coq Require Import List NArith ZArith Arith Bool Lia ZifyN ZifyNat ZifyBool.
-From AHK Require Import Lib.Res Lib.ByteStr Model.Pdu Model.PduLink Proofs.PduBle.
+From AHK Require Import Lib.Res Lib.ByteStr Model.Pdu Model.PduLink Proofs.PduBle Proofs.PduSession.
 Import ListNotations.
 
 Lemma issue_seq_ge : forall ws t x, In x (issue_seq t ws) -> t <= fst x.
@@ -107,11 +107,11 @@ Proof.
   intros lat sealW openR sealR openW resp.
   induction reqs as [|[[[[fs op] tid] iid] data] r IH]; intros k cst ast; [reflexivity|].
   cbn [ble_loop_link ble_loop].
-  destruct (ble_write sealW (fst cst) fs op tid iid data) as [we|e]; [|reflexivity].
+  destruct (ble_write sealW (fst cst) fs op tid iid data) as [we|e| |]; try reflexivity.
   cbn [rbind]. rewrite link_seq_id.
   destruct (acc_handle sealR openW resp ast (fst we)) as [[fr ast']|]; [|reflexivity].
   rewrite link_seq_id.
-  destruct (read_pdu openR (snd cst) tid fr) as [[[[st body] un] d']|e]; [|reflexivity].
+  destruct (read_pdu openR (snd cst) tid fr) as [[[[st body] un] d']|e| |]; try reflexivity.
   cbn [rbind]. rewrite IH. reflexivity.
 Qed.
 
